@@ -884,6 +884,7 @@ static Node *declaration(Token **rest, Token *tok, Type *basety, VarAttr *attr) 
     if (attr && attr->is_static) {
       // static local variable
       Obj *var = new_anon_gvar(ty);
+      var->enclosing_fn = current_fn;
       push_scope(get_ident(ty->name))->var = var;
       if (equal(tok, "="))
         gvar_initializer(&tok, tok->next, var);
